@@ -394,7 +394,10 @@ def _r2(ctx, cf):
                             reinit = True
                     for n in C.walk(lbody):
                         if n["kind"] == "CallExpr" and C.callee_name(n) in ("memset", "fill", "std::fill") and C.call_args(n) and C.root_var(C.call_args(n)[0])[1] == rid:
-                            reinit = True
+                            # memset counts bytes: clearing n elements takes n * sizeof(element) (a bare element count clears a quarter of a float buffer)
+                            a_ = C.call_args(n)
+                            if C.callee_name(n) != "memset" or (len(a_) == 3 and any(x_["kind"] == "UnaryExprOrTypeTraitExpr" for x_ in C.walk(a_[2]))):
+                                reinit = True
                         if n["kind"] == "BinaryOperator" and n.get("opcode") == "=":
                             l = C.kids(n)[0]
                             if C.root_var(l)[1] == rid and C.strip(l).get("kind") != "DeclRefExpr" and C.line(n) is not None and C.line(call) is not None:
